@@ -85,12 +85,14 @@ def run(workdir, goenv, log):
             sig = "gate:admitted" + (":unsafe" if violated else "")
         else:
             sig = "gate:other"
+        if c["name"].startswith("multi-") and sig != "gate:other":
+            sig += ":file-with-several-groups:" + ("all-safe" if c["name"] == "multi-all-safe" else "unsafe-at-" + c["name"].rsplit("-", 1)[-1])
         out["cover"][sig] = out["cover"].get(sig, 0) + 1
         if went_on and violated:
             out["violations"].append({"property": "C16", "key": "gate-admits-unsafe:" + violated[0], "case": "gate:" + c["name"], "scan": 0,
                                       "msg": "the escalator binary starts up (passes the validation gate%s) with a configuration violating %s" % ("" if passed else " without validating", violated),
                                       "replay": f})
-        if sig == "gate:other":
+        if sig.startswith("gate:other"):
             out["inconclusive"].append("gate case %s: cannot tell admitted from rejected: %s" % (c["name"], text[-300:].replace("\n", " | ")))
         if len(out["samples"]) < 2:
             out["samples"].append("gate case %s -> %s" % (c["name"], sig))
